@@ -1,24 +1,30 @@
 (* C39 — break, continue and return affect only the named block.
 
-   A small structured language and two semantics of it:
+   A structured language and two semantics of it:
 
    (a) run_cancel: a transcription of murex's cancellation mechanism
          builtins/core/structs/break.go  cmdBreak / breakUpwards / cmdContinue / cmdReturn
          lang/process.go                 executeProcess: a process is skipped when
                                          p.HasCancelled() || p.Parent.HasCancelled()
-         builtins/core/structs/foreach.go forEachInnerLoop: p.HasCancelled() per element
-         builtins/core/structs/while.go   the condition block of a cancelled `while` produces
-                                         nothing, which reads as false
-         lang/interpreter_pc.go          runModeNormal: a block's exit number is the ExitNum
-                                         of its last process
+         foreach.go / formap.go / for.go / while.go   the loops stop when p.HasCancelled()
+                                         (a cancelled two-block `while` evaluates its condition
+                                         block to nothing = false)
+         if.go, switch.go, try.go        one fork per block that is run
+         lang/interpreter_pc.go          runModeNormal: a block's exit number is the ExitNum of
+                                         its last process; runModeTry / runModeTryPipe: the block
+                                         is left at the first statement whose exit number is > 0
+                                         (if another statement follows), with that exit number
        Every block that is being executed is a frame: the process that owns the block (if /
-       foreach / while / the function) together with its fork; both share one context
+       switch / a loop / try / the function) together with its fork; both share one context
        (lang/fork.go: fork.Context, fork.Done = p.Context, p.Done), a function fork has a
        context of its own.  f_cancelled is that context; f_restkilled says that the processes
        of the block instance now running in the frame have been cancelled (KillForks by
-       break / return, proc.Done() along the Next chain by continue).
+       break / return, proc.Done() along the Next chain by continue); f_exit is the ExitNum
+       the walk of break / return wrote into the owning process.
+       The try run mode is inherited by every nested block that is not a function body
+       (lang/fork.go: fork.RunMode = p.RunMode).
 
-   (b) run_ref: the usual big-step semantics with break / continue / return signals.
+   (b) run_ref: big-step semantics with break / continue / return signals.
 
    Programs: `Call f body` carries the body of the function it calls (the harness defines one
    murex function per Call node), so both semantics are structurally recursive.  Loops run
@@ -26,24 +32,35 @@
 From Murex Require Import Base.Outcome Base.Bytes.
 Local Open Scope N_scope.
 
-Inductive name := NIf | NForeach | NWhile | NFunc (f : N).
+Inductive name := NIf | NForeach | NWhile | NFor | NFormap | NSwitch | NTry | NTrypipe | NFunc (f : N).
 
 Definition name_eqb (a b : name) : bool :=
   match a, b with
-  | NIf, NIf | NForeach, NForeach | NWhile, NWhile => true
+  | NIf, NIf | NForeach, NForeach | NWhile, NWhile | NFor, NFor | NFormap, NFormap
+  | NSwitch, NSwitch | NTry, NTry | NTrypipe, NTrypipe => true
   | NFunc f, NFunc g => f =? g
   | _, _ => false
   end.
 
 Inductive cond := CTrue | CFalse | CEq (id : N) (m : N).
 
+(* LWhile: while { cond } { body }      LWhile1: while { body ; cond }  (one block) *)
+Inductive lkind := LForeach | LWhile | LFor | LFormap | LWhile1.
+Inductive bkind := BIf | BSwitch.
+
+Definition loop_name (k : lkind) : name :=
+  match k with LForeach => NForeach | LWhile | LWhile1 => NWhile | LFor => NFor | LFormap => NFormap end.
+Definition branch_name (k : bkind) : name := match k with BIf => NIf | BSwitch => NSwitch end.
+Definition try_name (pipe : bool) : name := if pipe then NTrypipe else NTry.
+
 Inductive stmt :=
-| Out (t : N)                               (* out tN *)
-| If (c : cond) (b : block)                 (* if { c } then { b } *)
-| Foreach (id : N) (n : nat) (b : block)    (* a [1..n] -> foreach vID { b } *)
-| While (id : N) (n : nat) (b : block)      (* wID = 0; while { $wID < n } { wID = $wID + 1; b } *)
-| Call (f : N) (b : block)                  (* fF ; exitnum      with   function fF { b } *)
+| Out (t : N)                                     (* out tN *)
+| Branch (k : bkind) (c : cond) (b d : block)     (* if { c } then { b } else { d }   /   switch { case { c } { b } ; default { d } } *)
+| Loop (k : lkind) (id : N) (n : nat) (b : block) (* a [1..n] -> foreach vID { b }, ... formap, for, while *)
+| Try (pipe : bool) (b : block)                   (* try { b }  /  trypipe { b } *)
+| Call (f : N) (b : block)                        (* fF ; exitnum      with   function fF { b } *)
 | Break (nm : name)
+| BreakAny                                        (* `break` without a name *)
 | Continue (nm : name)
 | Return (k : Z)
 with block := BNil | BCons (s : stmt) (b : block).
@@ -60,73 +77,96 @@ Definition eval (e : env) (c : cond) : bool :=
   | CEq id m => match env_get e id with Some v => v =? m | None => false end
   end.
 
+Definition nonnil (b : block) : bool := match b with BNil => false | _ => true end.
+Definition failed (x : Z) : bool := (0 <? x)%Z.
+
 (* ------------------------------------------------------------------ *)
 (* (b) reference semantics *)
-Inductive sig := SNone | SBrk (nm : name) | SCont (nm : name) | SRet (k : Z).
+Inductive sig := SNone | SBrk (nm : name) | SBrkAny | SCont (nm : name) | SRet (k : Z).
 
-(* a block named nm absorbs the break / continue that names it *)
+(* a block named nm absorbs the break / continue that names it, and the nameless break *)
 Definition absorb (nm : name) (g : sig) : sig :=
   match g with
   | SBrk n | SCont n => if name_eqb nm n then SNone else g
+  | SBrkAny => SNone
   | _ => g
   end.
 
+(* the exit number a signal leaves in the processes it passes through *)
+Definition sig_exit (g : sig) : Z := match g with SRet k => k | _ => 0%Z end.
+
 Section RefLoop.
-  Variable body : N -> list tok * sig.      (* one iteration, given the loop variable *)
+  Variable body : N -> list tok * sig * Z.  (* one iteration: output, signal, exit number of the block *)
   Variable nm : name.
-  (* iterations i, i+1, ... (k of them) *)
+  Variable stopfail : bool.                 (* one-block while in try mode: a failed iteration is a false condition *)
   Fixpoint ref_loop (k : nat) (i : N) : list tok * sig :=
     match k with
     | O => ([], SNone)
     | S k' =>
-        let '(o, g) := body i in
+        let '(o, g, x) := body i in
+        let next := let '(o2, g2) := ref_loop k' (i + 1) in (o ++ o2, g2) in
         match g with
-        | SNone => let '(o2, g2) := ref_loop k' (i + 1) in (o ++ o2, g2)
-        | SCont n => if name_eqb nm n then let '(o2, g2) := ref_loop k' (i + 1) in (o ++ o2, g2)
-                     else (o, g)
+        | SNone => if stopfail && failed x then (o, SNone) else next
+        | SCont n => if name_eqb nm n then (if stopfail && failed x then (o, SNone) else next) else (o, g)
         | SBrk n => if name_eqb nm n then (o, SNone) else (o, g)
+        | SBrkAny => (o, SNone)
         | SRet _ => (o, g)
         end
     end.
 End RefLoop.
 
-Fixpoint ref_stmt (e : env) (s : stmt) : list tok * sig :=
+(* tm: the block is run in try / trypipe mode *)
+Fixpoint ref_stmt (tm : bool) (e : env) (s : stmt) : list tok * sig * Z :=
   match s with
-  | Out t => ([TOut t], SNone)
-  | If c b => if eval e c then let '(o, g) := ref_block e b in (o, absorb NIf g) else ([], SNone)
-  | Foreach id n b => ref_loop (fun i => ref_block ((id, i) :: e) b) NForeach n 1
-  | While id n b => ref_loop (fun i => ref_block ((id, i) :: e) b) NWhile n 1
+  | Out t => ([TOut t], SNone, 0%Z)
+  | Branch k c b d =>
+      let '(o, g, _) := ref_block tm e (if eval e c then b else d) 0%Z in
+      (o, absorb (branch_name k) g, sig_exit (absorb (branch_name k) g))
+  | Loop k id n b =>
+      let '(o, g) := ref_loop (fun i => ref_block tm ((id, i) :: e) b 0%Z) (loop_name k)
+                              (match k with LWhile1 => tm | _ => false end) n 1 in
+      (o, g, sig_exit g)
+  | Try pipe b =>
+      let '(o, g, x) := ref_block true e b 0%Z in (o, absorb (try_name pipe) g, x)
   | Call f b =>
-      let '(o, g) := ref_block [] b in
-      (o ++ [TExit (match g with SRet k => k | _ => 0%Z end)], SNone)
-  | Break nm => ([], SBrk nm)
-  | Continue nm => ([], SCont nm)
-  | Return k => ([], SRet k)
+      let '(o, g, _) := ref_block false [] b 0%Z in
+      let k := match g with SRet k => k | _ => 0%Z end in
+      (* in try mode a failed call ends the block before `exitnum` is reached *)
+      if tm && failed k then (o, SNone, k) else (o ++ [TExit k], SNone, 0%Z)
+  | Break nm => ([], SBrk nm, 0%Z)
+  | BreakAny => ([], SBrkAny, 1%Z)            (* "missing parameter" is an error *)
+  | Continue nm => ([], SCont nm, 0%Z)
+  | Return k => ([], SRet k, k)
   end
-with ref_block (e : env) (b : block) : list tok * sig :=
+with ref_block (tm : bool) (e : env) (b : block) (xprev : Z) : list tok * sig * Z :=
   match b with
-  | BNil => ([], SNone)
+  | BNil => ([], SNone, xprev)
   | BCons s b' =>
-      let '(o, g) := ref_stmt e s in
+      let '(o, g, x) := ref_stmt tm e s in
       match g with
-      | SNone => let '(o2, g2) := ref_block e b' in (o ++ o2, g2)
-      | _ => (o, g)
+      | SNone =>
+          if tm && failed x && nonnil b' then (o, SNone, x)
+          else let '(o2, g2, x2) := ref_block tm e b' x in (o ++ o2, g2, x2)
+      | _ => (o, g, x)
       end
   end.
 
 (* the whole program is the body of the function the harness runs it in *)
 Definition run_ref (main : block) : list tok * Z :=
-  let '(o, g) := ref_block [] main in (o, match g with SRet k => k | _ => 0%Z end).
+  let '(o, g, _) := ref_block false [] main 0%Z in (o, match g with SRet k => k | _ => 0%Z end).
 
 (* ------------------------------------------------------------------ *)
 (* (a) the cancellation mechanism *)
-Record frame := { f_name : name; f_cancelled : bool; f_restkilled : bool }.
-Definition new_frame (nm : name) : frame := {| f_name := nm; f_cancelled := false; f_restkilled := false |}.
-Definition kill (f : frame) : frame := {| f_name := f_name f; f_cancelled := true; f_restkilled := true |}.
+Record frame := { f_name : name; f_cancelled : bool; f_restkilled : bool; f_exit : Z }.
+Definition new_frame (nm : name) : frame :=
+  {| f_name := nm; f_cancelled := false; f_restkilled := false; f_exit := 0%Z |}.
+(* proc.ExitNum = x; proc.KillForks(x); proc.Done() *)
+Definition kill (x : Z) (f : frame) : frame :=
+  {| f_name := f_name f; f_cancelled := true; f_restkilled := true; f_exit := x |}.
 Definition kill_rest (f : frame) : frame :=
-  {| f_name := f_name f; f_cancelled := f_cancelled f; f_restkilled := true |}.
+  {| f_name := f_name f; f_cancelled := f_cancelled f; f_restkilled := true; f_exit := f_exit f |}.
 Definition fresh_iteration (f : frame) : frame :=
-  {| f_name := f_name f; f_cancelled := f_cancelled f; f_restkilled := false |}.
+  {| f_name := f_name f; f_cancelled := f_cancelled f; f_restkilled := false; f_exit := f_exit f |}.
 Definition frame_live (f : frame) : bool := negb (f_cancelled f) && negb (f_restkilled f).
 
 (* breakUpwards: proc.KillForks; proc.Done(); stop at the block called nm; else its parent.
@@ -136,8 +176,12 @@ Definition frame_live (f : frame) : bool := negb (f_cancelled f) && negb (f_rest
 Fixpoint brk_walk (nm : name) (st : list frame) : list frame :=
   match st with
   | [] => []
-  | f :: st' => if name_eqb (f_name f) nm then kill f :: st' else kill f :: brk_walk nm st'
+  | f :: st' => if name_eqb (f_name f) nm then kill 0 f :: st' else kill 0 f :: brk_walk nm st'
   end.
+
+(* cmdBreak without a name: p.Parent.Done(); p.Parent.KillForks(0); error *)
+Definition kill_top (st : list frame) : list frame :=
+  match st with [] => [] | f :: st' => kill 0 f :: st' end.
 
 (* cmdContinue, after the first process: the walk arrives at a block from the last of its
    statements, all of which it has cancelled (proc.Done() along Next); the block itself is
@@ -151,7 +195,7 @@ Fixpoint cont_up (nm : name) (st : list frame) : list frame :=
       if name_eqb (f_name f) nm then kill_rest f :: st'
       else match st' with
            | [] => [kill_rest f]
-           | _ => kill f :: cont_up nm st'
+           | _ => kill 0 f :: cont_up nm st'
            end
   end.
 
@@ -165,12 +209,12 @@ Definition cont_walk (nm : name) (st : list frame) : list frame :=
       if name_eqb (f_name f) nm then st
       else match st' with
            | [] => st
-           | _ => kill f :: cont_up nm st'
+           | _ => kill 0 f :: cont_up nm st'
            end
   end.
 
-(* cmdReturn: breakUpwards to the function, which is the outermost frame of the stack *)
-Definition kill_all (st : list frame) : list frame := map kill st.
+(* cmdReturn: breakUpwards(p, <the function>, k): the function is the outermost frame *)
+Definition kill_all (k : Z) (st : list frame) : list frame := map (kill k) st.
 
 Record cstate := { c_stack : list frame; c_out : list tok; c_exit : Z }.
 
@@ -178,6 +222,8 @@ Definition top_live (st : list frame) : bool :=
   match st with [] => false | f :: _ => frame_live f end.
 Definition top_cancelled (st : list frame) : bool :=
   match st with [] => true | f :: _ => f_cancelled f end.
+Definition top_exit (st : list frame) : Z :=
+  match st with [] => 0%Z | f :: _ => f_exit f end.
 Definition pop (c : cstate) : cstate :=
   {| c_stack := tl (c_stack c); c_out := c_out c; c_exit := c_exit c |}.
 Definition push (f : frame) (c : cstate) : cstate :=
@@ -187,66 +233,93 @@ Definition renew_top (c : cstate) : cstate :=
      c_out := c_out c; c_exit := c_exit c |}.
 
 Section CancelLoop.
-  Variable body : N -> cstate -> cstate.    (* one run of the block in the loop's frame *)
-  (* foreach: forEachInnerLoop returns at once when p.HasCancelled();
-     while: the condition block of a cancelled while yields nothing = false *)
+  Variable body : N -> cstate -> cstate * Z.  (* one run of the block in the loop's frame *)
+  Variable stopfail : bool.
+  (* the loops test p.HasCancelled() before every iteration (a cancelled two-block while: its
+     condition block yields nothing = false); the one-block while takes the exit number of its
+     block as part of the condition *)
   Fixpoint cancel_loop (k : nat) (i : N) (c : cstate) : cstate :=
     match k with
     | O => c
     | S k' =>
         if top_cancelled (c_stack c) then c
-        else cancel_loop k' (i + 1) (body i (renew_top c))
+        else let '(c1, x) := body i (renew_top c) in
+             if stopfail && failed x then c1 else cancel_loop k' (i + 1) c1
     end.
 End CancelLoop.
 
-Fixpoint exec_stmt (e : env) (s : stmt) (c : cstate) : cstate :=
+Fixpoint exec_stmt (tm : bool) (e : env) (s : stmt) (c : cstate) : cstate * Z :=
   match s with
-  | Out t => {| c_stack := c_stack c; c_out := c_out c ++ [TOut t]; c_exit := c_exit c |}
-  | If cd b => if eval e cd then pop (exec_block e b (push (new_frame NIf) c)) else c
-  | Foreach id n b =>
-      pop (cancel_loop (fun i c' => exec_block ((id, i) :: e) b c') n 1 (push (new_frame NForeach) c))
-  | While id n b =>
-      pop (cancel_loop (fun i c' => exec_block ((id, i) :: e) b c') n 1 (push (new_frame NWhile) c))
+  | Out t => ({| c_stack := c_stack c; c_out := c_out c ++ [TOut t]; c_exit := c_exit c |}, 0%Z)
+  | Branch k cd b d =>
+      let r := fst (exec_block tm e (if eval e cd then b else d) (push (new_frame (branch_name k)) c) 0%Z) in
+      (pop r, top_exit (c_stack r))
+  | Loop k id n b =>
+      let r := cancel_loop (fun i c' => exec_block tm ((id, i) :: e) b c' 0%Z)
+                           (match k with LWhile1 => tm | _ => false end) n 1
+                           (push (new_frame (loop_name k)) c) in
+      (pop r, top_exit (c_stack r))
+  | Try pipe b =>
+      (* p.RunMode = try; p.ExitNum, err = p.Fork(F_PARENT_VARTABLE).Execute(block) *)
+      let '(r, x) := exec_block true e b (push (new_frame (try_name pipe)) c) 0%Z in (pop r, x)
   | Call f b =>
-      (* a function fork has its own context, scope and variables *)
-      let r := exec_block [] b {| c_stack := [new_frame (NFunc f)]; c_out := []; c_exit := 0%Z |} in
-      {| c_stack := c_stack c; c_out := c_out c ++ c_out r ++ [TExit (c_exit r)]; c_exit := c_exit c |}
-  | Break nm => {| c_stack := brk_walk nm (c_stack c); c_out := c_out c; c_exit := c_exit c |}
-  | Continue nm => {| c_stack := cont_walk nm (c_stack c); c_out := c_out c; c_exit := c_exit c |}
-  | Return k => {| c_stack := kill_all (c_stack c); c_out := c_out c; c_exit := k |}
+      (* a function fork has its own context, scope, variables and the normal run mode *)
+      let r := fst (exec_block false [] b {| c_stack := [new_frame (NFunc f)]; c_out := []; c_exit := 0%Z |} 0%Z) in
+      let k := c_exit r in
+      if tm && failed k
+      then ({| c_stack := c_stack c; c_out := c_out c ++ c_out r; c_exit := c_exit c |}, k)
+      else ({| c_stack := c_stack c; c_out := c_out c ++ c_out r ++ [TExit k]; c_exit := c_exit c |}, 0%Z)
+  | Break nm => ({| c_stack := brk_walk nm (c_stack c); c_out := c_out c; c_exit := c_exit c |}, 0%Z)
+  | BreakAny => ({| c_stack := kill_top (c_stack c); c_out := c_out c; c_exit := c_exit c |}, 1%Z)
+  | Continue nm => ({| c_stack := cont_walk nm (c_stack c); c_out := c_out c; c_exit := c_exit c |}, 0%Z)
+  | Return k => ({| c_stack := kill_all k (c_stack c); c_out := c_out c; c_exit := k |}, k)
   end
-with exec_block (e : env) (b : block) (c : cstate) : cstate :=
+with exec_block (tm : bool) (e : env) (b : block) (c : cstate) (xprev : Z) : cstate * Z :=
   match b with
-  | BNil => c
+  | BNil => (c, xprev)
   | BCons s b' =>
       (* executeProcess: if p.HasCancelled() || p.Parent.HasCancelled() { destroyProcess(p); return } *)
-      if top_live (c_stack c) then exec_block e b' (exec_stmt e s c) else c
+      if top_live (c_stack c) then
+        let '(c1, x) := exec_stmt tm e s c in
+        if tm && failed x && nonnil b' then (c1, x)      (* runModeTry: leave the block *)
+        else exec_block tm e b' c1 x
+      else (c, xprev)
   end.
 
 Definition run_cancel (main : block) : list tok * Z :=
-  let r := exec_block [] main {| c_stack := [new_frame (NFunc 0)]; c_out := []; c_exit := 0%Z |} in
+  let r := fst (exec_block false [] main {| c_stack := [new_frame (NFunc 0)]; c_out := []; c_exit := 0%Z |} 0%Z) in
   (c_out r, c_exit r).
 
 (* ------------------------------------------------------------------ *)
-(* well-named programs: a `continue` does not sit directly in the block it names (known
-   finding 1) nor directly in the function body.  Nothing is asked of `break`, `return`, or of
-   the NAME of a continue: a name that no enclosing block of the current function has is the
-   error case of the real code (the function is abandoned, its caller carries on).
-   encl: the names of the enclosing blocks of the current function, innermost first. *)
-Fixpoint in_names (nm : name) (l : list name) : bool :=
-  match l with [] => false | x :: l' => name_eqb x nm || in_names nm l' end.
+(* well-named programs.  encl: the enclosing blocks of the current function, innermost first,
+   each with "is a one-block while".
+   - a `continue` does not sit directly in the block it names (known finding 1) nor directly in
+     the function body;
+   - a `continue` does not target a one-block while (known finding 2: the condition of that loop
+     is the output and exit number of its block, which the continue cuts short).
+   Nothing is asked of `break`, `return`, or of the NAME of a continue: a name that no enclosing
+   block of the current function has is the error case of the real code (the function is
+   abandoned, its caller carries on). *)
+Fixpoint target_is_while1 (nm : name) (l : list (name * bool)) : bool :=
+  match l with
+  | [] => false
+  | (x, w1) :: l' => if name_eqb x nm then w1 else target_is_while1 nm l'
+  end.
 
-Fixpoint wn_stmt (encl : list name) (s : stmt) : bool :=
+Fixpoint wn_stmt (encl : list (name * bool)) (s : stmt) : bool :=
   match s with
-  | Out _ | Return _ => true
-  | If _ b => wn_block (NIf :: encl) b
-  | Foreach _ _ b => wn_block (NForeach :: encl) b
-  | While _ _ b => wn_block (NWhile :: encl) b
-  | Call f b => wn_block [NFunc f] b
-  | Break nm => true
-  | Continue nm => match encl with x :: _ :: _ => negb (name_eqb x nm) | _ => false end
+  | Out _ | Return _ | Break _ | BreakAny => true
+  | Branch k _ b d => wn_block ((branch_name k, false) :: encl) b && wn_block ((branch_name k, false) :: encl) d
+  | Loop k _ _ b => wn_block ((loop_name k, match k with LWhile1 => true | _ => false end) :: encl) b
+  | Try pipe b => wn_block ((try_name pipe, false) :: encl) b
+  | Call f b => wn_block [(NFunc f, false)] b
+  | Continue nm =>
+      match encl with
+      | (x, _) :: _ :: _ => negb (name_eqb x nm) && negb (target_is_while1 nm encl)
+      | _ => false
+      end
   end
-with wn_block (encl : list name) (b : block) : bool :=
+with wn_block (encl : list (name * bool)) (b : block) : bool :=
   match b with BNil => true | BCons s b' => wn_stmt encl s && wn_block encl b' end.
 
-Definition well_named (main : block) : bool := wn_block [NFunc 0] main.
+Definition well_named (main : block) : bool := wn_block [(NFunc 0, false)] main.
